@@ -179,6 +179,7 @@ def history(ctx, props):
     ops_log = []
     nontrivial = False
     nt05 = False
+    last_reb = None
 
     def quote(c):
         if c in mid:
@@ -216,9 +217,15 @@ def history(ctx, props):
                     continue
                 c = rng.choice(cs)
                 p = led.pos.get(c, 0.0)
-                kind = rng.choice(["open", "add", "reduce", "close", "flip"]) if p != 0 else "open"
+                kind = rng.choice(["open", "add", "reduce", "close", "flip", "flip-smaller"] + (["dust"] if rng.random() < 0.15 else [])) if p != 0 else "open"
                 unit = v_prev / (mid[c] * c.multiplier)
-                if kind == "open":
+                if kind == "dust":
+                    # leave a residual below the broker's documented dust threshold (1e-7): the
+                    # position is snapped to zero (DESIGN 4.2-a) and must then be flat in every respect
+                    dq = -(p - math.copysign(rng.choice([5e-8, 9e-8, 1e-9]), p))
+                elif kind == "flip-smaller":
+                    dq = -p * rng.uniform(1.05, 1.95)
+                elif kind == "open":
                     dq = rng.choice([-1, 1]) * rng.uniform(0.05, 1.5) * unit
                 elif kind == "add":
                     dq = math.copysign(rng.uniform(0.05, 1.0) * unit, p)
@@ -232,7 +239,8 @@ def history(ctx, props):
                     dq = float(round(dq)) or math.copysign(1.0, dq)
                     if p != 0 and kind == "close":
                         dq = -p
-                dq = _avoid_dust(p, dq)
+                if kind != "dust":
+                    dq = _avoid_dust(p, dq)
                 bid, ask = led.quotes[c]
                 liq_old = led.liq(c)
                 px = ask if dq > 0 else bid
@@ -304,11 +312,18 @@ def history(ctx, props):
                     tgt = [rng.choice([0, float(rng.randint(-20, 20)), rng.uniform(-10, 10)]) * v_prev / (mid[c] * c.multiplier) / 10
                            for c in cs]
                 keys = list(cs)
-                if rng.random() < 0.3:
+                if last_reb is not None and rng.random() < 0.25:
+                    # same target again after a small drift: the imbalances are tiny (their
+                    # notional can be below a fixed commission) and must still be traded
+                    measure, keys, tgt = last_reb
+                    keys, tgt = list(keys), list(tgt)
+                    ctx.cat("op:rebalance-repeat-target")
+                elif rng.random() < 0.3:
                     # drop some contracts from the target: held ones must be closed
                     keep = [rng.random() < 0.6 for _ in cs]
                     keys = [c for c, kp in zip(cs, keep) if kp]
                     tgt = [x for x, kp in zip(tgt, keep) if kp]
+                last_reb = (measure, list(keys), list(tgt))
                 r = Rebalancing(keys, tgt, measure=measure, time=t)
                 pos_before = dict(led.pos)
                 try:
